@@ -1,5 +1,5 @@
 """Scenario families per property (programs are data: one JSON document feeds TLC and the Rust harness)."""
-import copy, random
+import copy, os, random
 import scen as scenlib
 
 
@@ -475,10 +475,17 @@ def for_property(prop, tier, seed=0):
         rnd = random.Random(seed)
         rnd.shuffle(rest)
         out = core + rest[:4]
-    return out
+    # generated programs (VERIF_GEN overrides the number; VERIF_GEN_ONLY=1 explores nothing else)
+    ngen = int(os.environ.get('VERIF_GEN', GEN_QUICK if quick else GEN_THOROUGH))
+    gen = generated(prop, seed, ngen)
+    if os.environ.get('VERIF_GEN_ONLY') == '1':
+        return gen
+    return out + gen
 
 
 QUICK_CAP = 30
+GEN_QUICK = 0
+GEN_THOROUGH = 0
 
 
 def spread_order(scenarios):
@@ -497,4 +504,257 @@ def spread_order(scenarios):
             if len(groups[stem]) > level:
                 out.append(groups[stem][level])
         level += 1
+    return out
+
+
+# ---------------------------------------------------------------------------------------------------------------------------------
+# Generated programs: the hand-written families are a finite sample of each property's quantifier ("for every program ..."); the
+# generator draws further programs from the same operation grammar, valid by construction (a future is closed at most once and by
+# the thread that made it, nobody calls into an object after its last owner dropped it, no nested sync on the same object, ...).
+# The same seed always gives the same programs.
+
+GEN_CLASS = {'C01': 'mix', 'C02': 'mix', 'C03': 'mix', 'C04': 'mix', 'C09': 'mix', 'C06': 'future', 'C07': 'future', 'C08': 'fsync', 'C10': 'block',
+             'C13': 'suspend', 'C05': 'drop', 'C14': 'drop', 'C15': 'panic', 'C11': 'pipe_in', 'C12': 'pipe', 'C16': 'pipe_drop', 'C17': None}
+
+GEN_WEIGHTS = {
+    'mix':     dict(D=30, S=22, T=16, FD=18, FS=8, AF=6),
+    'future':  dict(D=15, S=15, T=8, FD=40, FS=10, AF=12),
+    'fsync':   dict(D=20, S=12, T=10, FD=18, FS=40),
+    'block':   dict(D=50, S=20, T=5, FD=25),
+    'suspend': dict(D=35, S=25, T=15, FD=15, FS=10),
+    'drop':    dict(D=40, S=15, T=10, FD=30, AF=5),
+    'panic':   dict(D=35, S=30, T=15, FD=20),
+}
+
+
+def _pick(rnd, weights):
+    tot = sum(weights.values())
+    x = rnd.uniform(0, tot)
+    for k, w in weights.items():
+        x -= w
+        if x <= 0:
+            return k
+    return k
+
+
+def gen_scenario(rnd, cls, name):
+    if cls in ('pipe', 'pipe_in', 'pipe_drop'):
+        return _gen_pipe(rnd, cls, name)
+    nobj = 1 if rnd.random() < 0.55 else 2
+    if cls == 'block':
+        nobj = rnd.choice([2, 2, 3])
+    pool = rnd.choice({'mix': [0, 1, 1, 2], 'future': [0, 1, 1, 2], 'fsync': [0, 1, 1, 2], 'block': [1, 2, 2, 3], 'suspend': [0, 1, 1, 2],
+                       'drop': [0, 1, 1, 2], 'panic': [1, 1, 2]}[cls])
+    nthreads = rnd.choice([1, 2, 2, 2, 2, 3]) if cls in ('future', 'fsync', 'suspend') else rnd.choice([2, 2, 2, 3])
+    budget = rnd.randint(3, 6 if nthreads < 3 else 5)
+    gates = [0]
+    threads = [[] for _ in range(nthreads)]
+    lab = [0]
+    fires = []           # (gate, creator thread)
+    closers = []         # (thread, index of the creating op, [closing ops])
+    dropped_obj = None
+    drop_thread = None
+    if cls == 'drop':
+        dropped_obj, drop_thread = rnd.randint(1, nobj), rnd.randrange(nthreads)
+    panicked = [False]
+
+    def new_gate(t):
+        gates[0] += 1
+        fires.append((gates[0], t))
+        return gates[0]
+
+    def new_label():
+        lab[0] += 1
+        return 'f%d' % lab[0]
+
+    def obj_for(t):
+        objs = [o for o in range(1, nobj + 1) if not (o == dropped_obj and t != drop_thread)]
+        return rnd.choice(objs) if objs else None
+
+    def small_body(o):
+        # a nested operation on another object (never the same one)
+        others = [x for x in range(1, nobj + 1) if x != o and x != dropped_obj]
+        if not others or rnd.random() > 0.18:
+            return None
+        o2 = rnd.choice(others)
+        return [rnd.choice([S, D, T])(o2)]
+
+    for _ in range(budget):
+        t = rnd.randrange(nthreads)
+        o = obj_for(t)
+        if o is None:
+            continue
+        k = _pick(rnd, GEN_WEIGHTS[cls])
+        kw = {}
+        if cls == 'panic' and not panicked[0] and k in ('D', 'S', 'T', 'FD') and rnd.random() < 0.4:
+            kw['panic'] = True
+            panicked[0] = True
+        if k == 'D':
+            if cls == 'block' and gates[0] < 2 and rnd.random() < 0.5:
+                kw['block'] = new_gate(t)
+            threads[t].append(D(o, body=small_body(o), **kw))
+        elif k == 'S':
+            threads[t].append(S(o, body=small_body(o), **kw))
+        elif k == 'T':
+            threads[t].append(T(o, **kw))
+        elif k in ('FD', 'FS', 'AF'):
+            g = new_gate(t) if gates[0] < 2 and (k == 'AF' or rnd.random() < 0.6) else None
+            if k == 'AF' and g is None:
+                k = 'FD'
+            if k == 'FD':
+                then = rnd.choice(['await', 'detach', 'detach', 'keep'])
+            elif k == 'FS':
+                then = rnd.choice(['await', 'await', 'drop', 'keep'])
+            else:
+                then = rnd.choice(['await', 'detach', 'keep'])
+            label = new_label() if then == 'keep' else None
+            if k == 'FD':
+                op = FD(o, aw=[g] if g else [], then=then, label=label, **kw)
+            elif k == 'FS':
+                op = FS(o, aw=[g] if g else [], then=then, label=label)
+            else:
+                op = AF(o, g, then=then, label=label)
+            threads[t].append(op)
+            if then == 'keep':
+                choices = [[AW(label)], [DR(label)], [PO(label), DR(label)], [PO(label), AW(label)], [PO(label)], []]
+                if k == 'FD':
+                    choices.append([WS(label)])
+                closers.append((t, op, rnd.choice(choices)))
+    # suspensions: one per scenario, requested and released by the same thread
+    if cls == 'suspend':
+        t = rnd.randrange(nthreads)
+        o = rnd.randint(1, nobj)
+        label = new_label()
+        pos = rnd.randint(0, len(threads[t]))
+        shape = rnd.choice(['await_rs', 'await_rs', 'await_drs', 'keep_aw_rs', 'keep_dr', 'keep_po_dr'])
+        if shape in ('await_rs', 'await_drs'):
+            threads[t].insert(pos, SU(o, then='await', label=label))
+            end = rnd.randint(pos + 1, len(threads[t]))
+            threads[t].insert(end, RS(label) if shape == 'await_rs' else DRS(label))
+        elif shape == 'keep_aw_rs':
+            threads[t].insert(pos, SU(o, label=label))
+            a = rnd.randint(pos + 1, len(threads[t]))
+            threads[t].insert(a, AW(label))
+            end = rnd.randint(a + 1, len(threads[t]))
+            threads[t].insert(end, RS(label))
+        else:
+            threads[t].insert(pos, SU(o, label=label))
+            end = rnd.randint(pos + 1, len(threads[t]))
+            if shape == 'keep_po_dr':
+                threads[t].insert(end, PO(label))
+                end += 1
+            threads[t].insert(end, DR(label))
+    # closing operations of kept futures: somewhere after the creating operation, in order, in the creating thread
+    for t, op, cl in closers:
+        pos = next(i for i, x in enumerate(threads[t]) if x is op)
+        for c in cl:
+            pos = rnd.randint(pos + 1, len(threads[t]))
+            threads[t].insert(pos, c)
+    # external events: fired by another thread if there is one (sometimes the same), now and then woken again (stale wakers)
+    for g, creator in fires:
+        others = [i for i in range(nthreads) if i != creator]
+        if rnd.random() < 0.08 and cls != 'block':
+            continue                                         # never fired: the operation stays suspended for ever
+        t = rnd.choice(others) if others and rnd.random() < 0.85 else creator
+        pos = rnd.randint(0, len(threads[t]))
+        threads[t].insert(pos, FIRE(g))
+        if cls in ('future', 'mix', 'suspend') and rnd.random() < 0.3:
+            threads[t].insert(rnd.randint(0, len(threads[t])), SPUR(g))
+    if cls == 'drop':
+        threads[drop_thread].append(DROP(dropped_obj, unwinding=rnd.random() < 0.25))
+    threads = [t for t in threads if t] or [[D(1)]]
+    if cls == 'block' and not any(op['k'] == 'sync' for t in threads for op in t) and rnd.random() < 0.5:
+        pass
+    return make(name, nobj, pool, gates[0], *threads)
+
+
+def _gen_pipe(rnd, cls, name):
+    pool = rnd.choice([1, 1, 2, 0])
+    kind = 'pipe_in' if cls == 'pipe_in' else 'pipe'
+    gate = 1 if rnd.random() < 0.2 else 0
+    create = (PI if kind == 'pipe_in' else P)(1, 1, **({'g': 1} if gate else {}))
+    nsend = rnd.randint(1, 3)
+    feeder = [SEND(1, i + 1) for i in range(nsend)]
+    closed = rnd.random() < 0.6
+    if closed:
+        feeder.append(CLOSE(1))
+    consumer = []
+    main = [create]
+    if kind == 'pipe':
+        if rnd.random() < 0.5:
+            main.append(DEPTH(1, rnd.choice([1, 1, 2])))
+        nnext = rnd.randint(0, nsend + (1 if closed else 0))
+        if cls == 'pipe_drop':
+            nnext = rnd.randint(0, max(0, nsend - 1))
+        consumer = [NEXT(1) for _ in range(nnext)]
+        if cls == 'pipe_drop' or rnd.random() < 0.25:
+            consumer.append(DS(1))
+    others = []
+    for _ in range(rnd.randint(0, 2)):
+        others.append(rnd.choice([S, D, T])(1))
+    drop = rnd.random() < (0.45 if cls != 'pipe' else 0.15)
+    layout = rnd.choice(['one', 'feeder_apart', 'consumer_apart', 'ops_apart'])
+    gates = 1 if gate else 0
+    t1, t2 = list(main), []
+    if layout == 'one':
+        seq = _interleave(rnd, feeder, consumer)
+        t1 += seq
+        t2 = others
+    elif layout == 'feeder_apart':
+        t1 += consumer
+        t2 = feeder
+        t1 = _scatter(rnd, t1, others, 1)
+    elif layout == 'consumer_apart':
+        t1 += feeder
+        t2 = consumer if consumer else others
+        if consumer:
+            t1 = _scatter(rnd, t1, others, 1)
+    else:
+        t1 += _interleave(rnd, feeder, consumer)
+        t2 = others or [S(1)]
+    if drop:
+        # the owner's handle goes away once this thread has made its last call into the object
+        if not any(op['k'] in ('sync', 'desync', 'try_sync') for op in t2):
+            last = max([i for i, op in enumerate(t1) if op['k'] in ('sync', 'desync', 'try_sync', 'pipe', 'pipe_in')])
+            t1.insert(rnd.randint(last + 1, len(t1)), DROP(1))
+    threads = [t1] + ([t2] if t2 else [])
+    if gate:
+        threads.append([FIRE(1)])
+    return make(name, 1, pool, gates, *threads, pipes=1)
+
+
+def _interleave(rnd, a, b):
+    """feeder operations a and consumer operations b in one thread: a read is placed only when an item (or the end) is there for it"""
+    a, b, out = list(a), list(b), []
+    avail = 0
+    while a or b:
+        can_read = b and (b[0]['k'] != 'next' or avail > 0)
+        if a and (not can_read or rnd.random() < 0.55):
+            out.append(a.pop(0))
+            avail += 1
+        elif can_read:
+            x = b.pop(0)
+            if x['k'] == 'next':
+                avail -= 1
+            out.append(x)
+        else:
+            b.pop(0)
+    return out
+
+
+def _scatter(rnd, seq, extra, first):
+    seq = list(seq)
+    for x in extra:
+        seq.insert(rnd.randint(first, len(seq)), x)
+    return seq
+
+
+def generated(prop, seed, n):
+    cls = GEN_CLASS.get(prop)
+    if not cls or n <= 0:
+        return []
+    out = []
+    for i in range(n):
+        rnd = random.Random('%s/%s/%d/%d' % (prop, cls, seed, i))
+        out.append(gen_scenario(rnd, cls, 'gen_%s_%d_%d' % (cls, seed, i)))
     return out
